@@ -73,10 +73,26 @@ def sketches(tier):
     return out
 
 
+# phrase replacement (option --repl): the copied text behind a replaced phrase keeps its offsets
+EXTRA = {
+    'repl_shorter': (['cat', A, ' ', ['G', 'so dass', 'sodass'], ' ', B, ' ', ['unknown', 'textbf', T('Gamma')],
+                      ['footnote', T('Foot note')], ' ', ['G', 'so\n  dass', 'sodass'], ' ', T('End')],
+                     {'repl': ['so dass & sodass']}),
+    'repl_longer': (['cat', A, ' ', ['G', 'z.B.', 'zumBeispiel'], ' ', B, ['footnote', T('Foot')], ' ',
+                     T('End')], {'repl': ['z.B. & zum Beispiel']}),
+    'repl_delete': (['cat', A, ' ', ['G', 'very', ''], ' ', B, ' ', ['G', 'very', ''], ' ', T('End')],
+                    {'repl': ['very & ']}),
+    'repl_two_rules': (['cat', A, ' ', ['G', 'so dass', 'sd'], ' ', B, ' ', ['G', 'z.B.', 'zum'], ' ',
+                        T('End')], {'repl': ['so dass & sd', 'z.B. & zum']}),
+}
+
+
 def items(tier, seed):
     tw = {'h': 'fam', 'name': 'twin', 'spec': family.doc(family.ATOMS[0]), 'tag': 'C02',
           'twin': True}
-    return fc.items(tier, seed, 'C02', [tw]) + sketches(tier)
+    ex = [{'h': 'fam', 'name': 'extra:' + n, 'spec': sp, 'tag': 'C02', 'opts': o}
+          for n, (sp, o) in EXTRA.items()]
+    return fc.items(tier, seed, 'C02', [tw] + ex) + sketches(tier)
 
 
 def run_item(item):
